@@ -626,7 +626,9 @@ def run_extract_many(case):
             ok = out.shape == exp.shape and bool(np.array_equal(out, exp))
         else:
             exp = np.array([math.fsum(float(r[c]) for r in rows) / len(rows) for c in range(before + after + 1)])
-            ok = out.shape == exp.shape and bool(np.allclose(out, exp, rtol=1e-6 if data.dtype == np.float32 else 1e-11, atol=0))
+            # the mean may be accumulated row after row in the signal's own floating type: recursive-summation bound k * eps * max|x|
+            rt = max(1e-11, k * float(np.finfo(data.dtype).eps)) if data.dtype.kind == 'f' else 1e-11
+            ok = out.shape == exp.shape and bool(np.all(np.abs(np.asarray(out, dtype=float) - exp) <= rt * float(np.max(np.abs(data)))))
         t.check(ok, 'extract_value', lambda: dict(info, got=np.asarray(out).ravel().tolist()[:6], expected=exp.ravel().tolist()[:6]))
     return t.result(sig=f"extract_many|{k}|{before}|{after}|{data.dtype}", sample=dict(case=case))
 
